@@ -22,6 +22,7 @@ type memVec struct {
 		Op string `json:"op"`
 		K  int    `json:"k"`
 		ZC bool   `json:"zc"`
+		T  string `json:"t"` // decode: kind of target (struct | raw | any)
 	} `json:"hist"`
 	May [][]int `json:"may"`
 }
@@ -117,11 +118,28 @@ func c10Run(c *Ctx, v memVec) {
 				}
 			}
 		case "decode":
-			t := &memTarget{}
-			if err := dec.Decode(t); err != nil {
-				continue // stream exhausted
+			// the kind of target is the history's: a struct with every kind of field, a top-level RawMessage, a
+			// value in an interface
+			switch a.T {
+			case "raw":
+				var r json.RawMessage
+				if err := dec.Decode(&r); err != nil {
+					continue // stream exhausted
+				}
+				add(func() string { return string(r) })
+			case "any":
+				var x any
+				if err := dec.Decode(&x); err != nil {
+					continue
+				}
+				add(func() string { return fmt.Sprint(x) })
+			default:
+				t := &memTarget{}
+				if err := dec.Decode(t); err != nil {
+					continue
+				}
+				add(t.dump)
 			}
-			add(t.dump)
 		case "tokstring":
 			in := input(a.K)
 			tok := json.NewTokenizer(in)
@@ -228,7 +246,7 @@ func c10Vector(c *Ctx, raw stdjson.RawMessage) {
 
 func c10Replay(c *Ctx, raw stdjson.RawMessage) {
 	var w c10WideCase
-	if stdjson.Unmarshal(raw, &w) == nil && (w.Shape != nil || w.Val > 100000 || w.Val == -7) {
+	if stdjson.Unmarshal(raw, &w) == nil && (w.Shape != nil || w.Val > 100000 || w.Val == -7 || w.Val == -8) {
 		c10WideReplay(c, w)
 		return
 	}
